@@ -275,8 +275,8 @@ func runC20(c *Ctx) {
 					return
 				}
 				var arg ssa.Value
-				if cal := call.Call.StaticCallee(); cal != nil && cal.String() == "strconv.Itoa" {
-					arg = call.Call.Args[0]
+				if a0 := decimalFormatArg(call); a0 != nil {
+					arg = a0
 				} else if mc, isMC := call.Call.Value.(*ssa.MakeClosure); isMC && len(call.Call.Args) == 1 && isIntType(call.Call.Args[0].Type()) {
 					_ = mc
 					arg = call.Call.Args[0]
@@ -425,8 +425,8 @@ func runC20(c *Ctx) {
 					if !ok {
 						return
 					}
-					if cal := call.Call.StaticCallee(); cal != nil && cal.String() == "strconv.Itoa" {
-						if _, f2, isL := fieldLoad(call.Call.Args[0]); isL && f2.Name() == "RequestedPort" {
+					if a0 := decimalFormatArg(call); a0 != nil {
+						if _, f2, isL := fieldLoad(stripIntConv(a0)); isL && f2.Name() == "RequestedPort" {
 							okReq = true
 						}
 					}
@@ -450,7 +450,12 @@ func runC20(c *Ctx) {
 					if !ok {
 						return
 					}
-					for _, fct := range normCond(iff.Cond, true) {
+					// the loop goes on only on an edge where counter < MaxRetries holds, whichever
+					// way round the test is written (`try < max` to continue, `try >= max` to break)
+					var both []Fact
+					both = append(both, normCond(iff.Cond, true)...)
+					both = append(both, normCond(iff.Cond, false)...)
+					for _, fct := range both {
 						if fct.Op == "<" && fct.Truth {
 							if _, f2, isL := fieldLoad(w.resolveLoad(fct.Y)); isL && f2.Name() == "MaxRetries" {
 								// the counter: a loop phi, or phi+1 of the rotated `for range n` form
@@ -518,4 +523,22 @@ func isClosureCall(w *World, call *ssa.Call) bool {
 	}
 	_, ok := w.resolveLoad(call.Call.Value).(*ssa.MakeClosure)
 	return ok
+}
+
+// decimalFormatArg: the integer formatted in base 10 by a strconv call (Itoa, FormatInt(x,
+// 10), FormatUint(x, 10)); nil for other calls.
+func decimalFormatArg(call *ssa.Call) ssa.Value {
+	cal := call.Call.StaticCallee()
+	if cal == nil {
+		return nil
+	}
+	switch cal.String() {
+	case "strconv.Itoa":
+		return call.Call.Args[0]
+	case "strconv.FormatInt", "strconv.FormatUint":
+		if k, ok := constInt(call.Call.Args[1]); ok && k == 10 {
+			return call.Call.Args[0]
+		}
+	}
+	return nil
 }
